@@ -3,6 +3,7 @@ package c04
 
 import (
 	"bytes"
+	"context"
 	"encoding/binary"
 	"fmt"
 	"testing"
@@ -12,6 +13,7 @@ import (
 	"github.com/SAP/go-dblib/tds"
 	"pgregory.net/rapid"
 	"verif/internal/flatch"
+	"verif/internal/peer"
 	"verif/internal/pkggen"
 	rc "verif/internal/refcodec"
 	"verif/internal/valgen"
@@ -405,6 +407,10 @@ func runPkgLeg(c pkgLegCase) (f *vh.Failure) {
 			}
 		}
 		vh.Label("package-leg:rows-parsed-in-sequence")
+		// ... and the same result set as it really arrives: through a channel, with what servers
+		// put between rows (an informational message, an environment change) - the channel
+		// takes those out, the rows keep their format and their values
+		f = rowsThroughChannel(enc.B, wires, rows)
 	}()
 	for ri, vals := range c.More {
 		for i, v := range vals {
@@ -644,4 +650,85 @@ func TestConcurrentRoundTrips(t *testing.T) {
 		return f
 	}
 	vh.Check(t, "TestConcurrentRoundTrips", vh.N(1500, 30000), gen, run)
+}
+
+func rowsThroughChannel(format []byte, wires [][]byte, rows [][]valgen.Val) (f *vh.Failure) {
+	defer func() {
+		if r := recover(); r != nil {
+			vh.CheckHarnessPanic(r)
+			f = vh.Failf("C04/rows-through-channel", "panic: %v", r)
+		}
+	}()
+	info, _, _, err := rc.EncodeStream([]rc.P{{EED: &rc.EED{MsgNumber: 5701, Class: 10, Status: rc.EEDInfo, Msg: "Changed database context.", Server: "ASE"}}})
+	if err != nil {
+		vh.HarnessBug("encode: %v", err)
+	}
+	env, _, _, err := rc.EncodeStream([]rc.P{{Env: &rc.EnvChange{Members: []rc.EnvMember{{Type: rc.EnvDB, New: "db1", Old: "master"}}}}})
+	if err != nil {
+		vh.HarnessBug("encode: %v", err)
+	}
+	stream := append([]byte{}, format...)
+	for i, w := range wires {
+		if i > 0 {
+			if i%2 == 1 {
+				stream = append(stream, info...)
+			} else {
+				stream = append(stream, env...)
+			}
+		}
+		stream = append(stream, w...)
+	}
+	stream = append(stream, rc.TokDone, 0, 0, 0, 0, 0, 0, 0, 0)
+	ctx, cancel := context.WithCancel(context.Background())
+	defer cancel()
+	conn, _, err := tds.VerifNewConn(ctx, peer.NewPipe(), &tds.Info{ChannelPackageQueueSize: 100}, false)
+	if err != nil {
+		vh.HarnessBug("VerifNewConn: %v", err)
+	}
+	ch, err := conn.NewChannel()
+	if err != nil {
+		vh.HarnessBug("NewChannel: %v", err)
+	}
+	for at := 0; at < len(stream); at += 60000 {
+		end, st := at+60000, tds.PacketHeaderStatus(0)
+		if end >= len(stream) {
+			end, st = len(stream), tds.TDS_BUFSTAT_EOM
+		}
+		ch.WritePacket(&tds.Packet{Header: tds.PacketHeader{MsgType: tds.TDS_BUF_RESPONSE, Status: st, Length: uint16(8 + end - at)}, Data: append([]byte{}, stream[at:end]...)})
+	}
+	var got []tds.Package
+	for {
+		p, err := ch.NextPackage(ctx, false)
+		if err != nil {
+			break
+		}
+		got = append(got, p)
+	}
+	if e := ch.VerifChanErr(); e != nil {
+		return vh.Failf("C04/rows-through-channel", "format, %d rows with an informational message / environment change between them, DONE: the channel reports %v", len(rows), e)
+	}
+	if len(got) != 2+len(rows) {
+		return vh.Failf("C04/rows-through-channel", "format, %d rows with an informational message / environment change between them, DONE: %d packages delivered", len(rows), len(got))
+	}
+	for ri, vals := range rows {
+		var fields []tds.FieldData
+		switch b := got[1+ri].(type) {
+		case *tds.RowPackage:
+			fields = b.DataFields
+		case *tds.ParamsPackage:
+			fields = b.DataFields
+		default:
+			return vh.Failf("C04/rows-through-channel", "package %d delivered by the channel is a %T", 1+ri, got[1+ri])
+		}
+		if len(fields) != len(vals) {
+			return vh.Failf("C04/rows-through-channel", "row %d delivered by the channel has %d fields, sent %d", ri+1, len(fields), len(vals))
+		}
+		for i, v := range vals {
+			if err := valgen.Match(v, fields[i].Value()); err != nil {
+				return vh.Failf("C04/rows-through-channel", "row %d of %d (behind an informational message / environment change), field %d (%s): %v", ri+1, len(rows), i, valgen.TW{T: v.T, W: v.W}, err)
+			}
+		}
+	}
+	vh.Label("package-leg:rows-through-a-channel-with-messages-between")
+	return nil
 }
